@@ -334,6 +334,83 @@ theorem forced_times (G : DSS ℚ) (T : List ℚ) (U X0 : Arr) (ex : Option (Exp
           | error e => simp [hd] at h
           | ok inc => simp [hd] at h; subst h; rfl
 
+/-! ### Continuous time: which loop runs (inputs of any magnitude) -/
+
+/-- the two continuous-time branches of `forced`: the zero-input fast path (`expAdt` recursion,
+`y = C x`) if `allZero`, the general first-order-hold loop otherwise. -/
+theorem forced_cont_branches (G : DSS ℚ) (T : List ℚ) (U X0 : Arr) (e : ExpmVals G.n G.m)
+    (hdt : G.dt = .cont) (dt : ℚ) (x0 : Vector ℚ G.n) (us : List (Vector ℚ G.m))
+    (hg : gridStep T = .ok dt) (hx : convertX0 G.n X0 = .ok x0)
+    (hu : convertU G.m T.length U = .ok us) :
+    forced G (some T) U X0 (some e) = .ok
+      (if allZero us then
+        ⟨T, (simFreeV G.sys e.expA x0 T.length).1, (simFreeV G.sys e.expA x0 T.length).2, us⟩
+       else
+        ⟨T, (simFOHV G.sys (fohBlocksFin e.expM).1 (fohBlocksFin e.expM).2.1
+              (fohBlocksFin e.expM).2.2 x0 us).1,
+            (simFOHV G.sys (fohBlocksFin e.expM).1 (fohBlocksFin e.expM).2.1
+              (fohBlocksFin e.expM).2.2 x0 us).2, us⟩) := by
+  simp only [forced, timeVector, hg, hx, hu, bind, Except.bind, pure, Except.pure, hdt]
+  split <;> rfl
+
+/-- an input with a single non-zero sample in a single channel - of whatever magnitude - is not
+"zero": the response is computed by the general loop, with the `B u` and `D u` terms
+(`foh_exact`, `discrete_outputs`).  (`allZero_iff`: the fast-path test is exact.) -/
+theorem forced_cont_nonzero_input (G : DSS ℚ) (T : List ℚ) (U X0 : Arr) (e : ExpmVals G.n G.m)
+    (hdt : G.dt = .cont) (dt : ℚ) (x0 : Vector ℚ G.n) (us : List (Vector ℚ G.m))
+    (hg : gridStep T = .ok dt) (hx : convertX0 G.n X0 = .ok x0)
+    (hu : convertU G.m T.length U = .ok us) (u : Vector ℚ G.m) (hmem : u ∈ us) (i : Fin G.m)
+    (hne : u.get i ≠ 0) :
+    forced G (some T) U X0 (some e) = .ok
+      ⟨T, (simFOHV G.sys (fohBlocksFin e.expM).1 (fohBlocksFin e.expM).2.1
+              (fohBlocksFin e.expM).2.2 x0 us).1,
+          (simFOHV G.sys (fohBlocksFin e.expM).1 (fohBlocksFin e.expM).2.1
+              (fohBlocksFin e.expM).2.2 x0 us).2, us⟩ := by
+  rw [forced_cont_branches G T U X0 e hdt dt x0 us hg hx hu]
+  have hz : allZero us = false := by
+    cases h : allZero us with
+    | false => rfl
+    | true => exact absurd ((allZero_iff us).1 h u hmem i) hne
+  simp only [hz, Bool.false_eq_true, if_false]
+
+/-- the fast path is only an optimisation: if `expA` is the `Ad` block of `expM` (both are
+`exp(A dt)`; contract on `scipy.linalg.expm`, checked numerically by the harness), then for
+EVERY input - zero, of tiny magnitude, or not - the continuous-time response is the general
+first-order-hold loop on the converted arguments, returned at the requested times with the
+given input.  Together with `superposition_foh` the response is linear in `(X0, U)` without a
+threshold on the size of the input. -/
+theorem forced_cont_any_input (G : DSS ℚ) (T : List ℚ) (U X0 : Arr) (e : ExpmVals G.n G.m)
+    (hdt : G.dt = .cont) (dt : ℚ) (x0 : Vector ℚ G.n) (us : List (Vector ℚ G.m))
+    (hg : gridStep T = .ok dt) (hx : convertX0 G.n X0 = .ok x0)
+    (hu : convertU G.m T.length U = .ok us)
+    (hA : e.expA = (fohBlocksFin e.expM).1) :
+    ∃ r, forced G (some T) U X0 (some e) = .ok r ∧ r.t = T ∧ r.u = us ∧
+      (r.x.map Vector.get, r.y.map Vector.get) =
+        simFOH G.sys (fohBlocksFin e.expM).1 (fohBlocksFin e.expM).2.1 (fohBlocksFin e.expM).2.2
+          x0.get (us.map Vector.get) := by
+  rw [forced_cont_branches G T U X0 e hdt dt x0 us hg hx hu]
+  have hlen := convertU_length G.m T.length U us hu
+  by_cases hz : allZero us = true
+  · refine ⟨_, rfl, ?_⟩
+    simp only [hz, if_true]
+    refine ⟨trivial, trivial, ?_⟩
+    rw [simFreeV_refines, allZero_map_get us hz, hlen, hA]
+    exact ((initial_eq_forced G.sys _ _ _ x0.get T.length).1).symm
+  · refine ⟨_, rfl, ?_⟩
+    have hz' : allZero us = false := by simpa using hz
+    simp only [hz', Bool.false_eq_true, if_false]
+    exact ⟨trivial, trivial, simFOHV_refines _ _ _ _ _ _⟩
+
+example : allZero [(#v[0, 0] : Vector ℚ 2), #v[0, 1 / 1000000000000]] = false := by decide +kernel
+example : allZero [(#v[0, 0] : Vector ℚ 2), #v[0, 0]] = true := by decide +kernel
+/-- non-vacuity of `forced_cont_nonzero_input`: `x' = u` from rest with `u = 1e-9` on `[0, 1]`
+(`expm` values of the augmented matrix given exactly): `x(1) = 1e-9`, not `0`. -/
+example : (match forced (⟨1, 1, 1, ⟨!![0], !![1], !![1], !![0]⟩, .cont⟩ : DSS ℚ) (some [0, 1])
+      (.d1 [1 / 1000000000, 1 / 1000000000]) (.scalar 0)
+      (some ⟨!![1], (!![1, 1, 1/2; 0, 1, 1; 0, 0, 1] : Matrix (Fin 3) (Fin 3) ℚ)⟩) with
+    | .ok r => r.x.map Vector.toList
+    | .error _ => []) = [[0], [1 / 1000000000]] := by decide +kernel
+
 /-- `initial_response` is `forced_response` with zero input (no inputs stored). -/
 theorem initial_eq_forced_exec (G : DSS ℚ) (T : List ℚ) (X0 : Arr) (ex : Option (ExpmVals G.n G.m)) :
     initial G T X0 none ex =
